@@ -18,7 +18,7 @@ Definition cores {A B} (f : A -> B) (l : list (Z * A)) : list (Z * B) := map (fu
 (* same ids, same entries up to counters (relay_early counts, the exit socket's enabled flag) *)
 Definition same_tables (a b : node key) : Prop :=
   n_prefix a = n_prefix b /\ n_max_early a = n_max_early b /\ n_flags a = n_flags b /\
-  n_handlers a = n_handlers b /\ n_tunnel_ep a = n_tunnel_ep b /\
+  n_handlers a = n_handlers b /\ n_data_ids a = n_data_ids b /\ n_tunnel_ep a = n_tunnel_ep b /\
   cores circuit_core (n_circuits a) = cores circuit_core (n_circuits b) /\
   cores relay_core (n_relays a) = cores relay_core (n_relays b) /\
   cores exit_core (n_exits a) = cores exit_core (n_exits b).
